@@ -975,6 +975,25 @@ np.ones = _creator(1)
 np.empty = _creator(0)
 
 
+def result_type(*a):
+    """numpy.result_type with symbolic operands: the logical kind of the symbolic ones (complex > float > int > bool;
+    an untyped symbolic value counts as float) joined with the real result type of the concrete ones."""
+    if not any(is_sym(x) for x in a):
+        return rnp.result_type(*a)
+    rank = {'bool': 0, 'int': 1, 'float': 2, None: 2, 'complex': 3, 'other': 2}
+    top = 0
+    for x in a:
+        if is_sym(x):
+            k = x.ldtype if isinstance(x, SArr) else (to_sarr(x).ldtype if not isinstance(x, SNum) else None)
+        else:
+            k = _kind(rnp.result_type(x))
+        top = max(top, rank.get(k, 2))
+    return [rnp.dtype(bool), rnp.dtype(rnp.int64), rnp.dtype(float), rnp.dtype(complex)][top]
+
+
+np.result_type = result_type
+
+
 def zeros_like(a, dtype=None):
     if is_sym(a):
         a = to_sarr(a)
